@@ -1,6 +1,8 @@
 import RtcVerif.Model.C05
 import RtcVerif.Proofs.C05Index
 import RtcVerif.Proofs.C05Pins
+import RtcVerif.Proofs.C05PinsGlobal
+import RtcVerif.Proofs.C05Interp
 import RtcVerif.Proofs.C08Scale
 /-!
 # C05 — variable bounds and initial conditions are imposed exactly as given
@@ -348,6 +350,213 @@ theorem init_der_other_cases (t0 : Rat) (b : Blk) (pt : List Rat) (pv : List (Op
   · simp [derPin, histEndingAt]
   · simp [derPin, histEndingAt]
   · simp [derPin, histEndingAt]
+
+
+/-! ## the pins in the vectors `transcribe()` returns -/
+
+/-- **History pins override the bounds — in the returned vectors.**  If member `m` has a history
+    value to pin for its `k`-th state / algebraic state (`pinValue … = some (some v)`, e.g.
+    `history_pin_value`), then in the `lbx`/`ubx` that `transcribe()` returns the first entry of
+    that variable holds `v` in both vectors, whatever its bounds, the other variables, the other
+    members' histories and the initial-derivative pins are.  (Controls share their entries between
+    members: there the last member with a value wins — see the model; not covered here.) -/
+theorem history_pin_final (I : Inst) (r : Result) (h : transcribeBounds I = some r) (hne : NonEmpty I)
+    (m k : Nat) (hm : m < I.E) (hk : k < I.states.length + I.algs.length) (b : Blk) (hh : Option Hist)
+    (hkk : ((pinVars I).zip (histOf I m ++ List.replicate (pinVars I).length none))[k]? = some (b, hh))
+    (v : XVal) (hv : pinValue I.t0 b hh = some (some v)) :
+    r.lbx[pinIndex I m k]? = some v ∧ r.ubx[pinIndex I m k]? = some v := by
+  obtain ⟨noms, lo, hi, hlo, hhi, hpm, _⟩ := transcribe_unfold I r h
+  have hE : 0 < I.E := by omega
+  have hll := boxArr_length true I lo hE hlo
+  have hlh := boxArr_length false I hi hE hhi
+  obtain ⟨bk, hbk⟩ := slot_exists I k (by rw [stateBlocks_length]; omega)
+  have hposk := hne.1 bk (List.mem_of_getElem? hbk)
+  obtain ⟨la, ha, lb, hb, lc, hc, sa, sc, e1, e2, e3, e4, e5⟩ :=
+    pinMembers_split I noms I.E 0 lo hi r.lbx r.ubx [] r.symbolic hpm m (Nat.zero_le _) (by omega)
+  have hp : pinIndex I m k = slotStart I m k := pinIndex_state I m k hk
+  have hlt : slotStart I m k < totalSize I := slotStart_lt I m k bk hm hbk hposk
+  -- effect of member m's own history sweep
+  have hzl : ((pinVars I).zip (histOf I m ++ List.replicate (pinVars I).length none)).length
+      = (pinVars I).length := zip_pad_length _ _
+  have heff := history_pins_override I m _ la ha lb hb e3 k b hh hkk v hv
+    (by rw [hp, e1, e2, hll, hlh]; exact ⟨hlt, hlt⟩)
+    (by
+      intro k' h1 h2
+      rw [hzl] at h2
+      exact pin_entries_distinct I m k k' bk hk h1 hbk hposk
+        (fun j b' hb' => hne.2 b' (List.mem_of_getElem? hb')) h2)
+  -- the derivative pins of member m do not touch it
+  have hfr2 := applyDerPins_frame I m noms _ 0 lb hb lc hc sa sc e4 (pinIndex I m k) (by
+    intro i hi hpi
+    rw [zip_pad_length] at hi
+    have ht : touches I m (slotStart I m k) := Or.inr ⟨i, hi, by rw [← hp]; simpa using hpi⟩
+    have := (touches_slotStart I hne m k m bk hbk ht).2
+    have hi' : i < I.states.length := hi
+    rcases this with h' | h'
+    · -- a derivative slot coincides with slot k only if indices agree: impossible
+      rw [hp] at hpi
+      simp only [Nat.zero_add] at hpi
+      rw [derIndex_eq] at hpi
+      obtain ⟨bd, hbd⟩ := slot_exists I
+        (I.states.length + I.algs.length + I.paths.length + I.extras.length + i)
+        (by rw [stateBlocks_length]; omega)
+      have := (slotStart_injective I hne m k m _ bk bd hbk hbd hpi).2
+      omega
+    · omega)
+  -- later members do not touch it
+  have hfr3 := pinMembers_frame I noms _ (m + 1) lc hc r.lbx r.ubx sc r.symbolic e5 (pinIndex I m k) (by
+    intro m' h1 h2 ht
+    rw [hp] at ht
+    have := (touches_slotStart I hne m k m' bk hbk ht).1
+    omega)
+  rw [hfr3.1, hfr3.2.1, hfr2.1, hfr2.2]
+  exact heff
+
+/-- **Entries that no pin addresses keep the user's box in the returned vectors**: every entry
+    other than the first entry of a state / algebraic state / control and the initial-derivative
+    entries is exactly what `box_is_users_box` describes. -/
+theorem unpinned_entries_keep_box (I : Inst) (r : Result) (h : transcribeBounds I = some r) (p : Nat)
+    (hp : ∀ m', m' < I.E → ¬ touches I m' p) :
+    ∃ lo hi, boxArr true I = some lo ∧ boxArr false I = some hi ∧
+      r.lbx[p]? = lo[p]? ∧ r.ubx[p]? = hi[p]? := by
+  obtain ⟨noms, lo, hi, hlo, hhi, hpm, _⟩ := transcribe_unfold I r h
+  have := pinMembers_frame I noms I.E 0 lo hi r.lbx r.ubx [] r.symbolic hpm p
+    (by intro m' _ h2; exact hp m' (by omega))
+  exact ⟨lo, hi, hlo, hhi, this.1, this.2.1⟩
+
+/-- **Initial-derivative pin in the returned vectors**: when the history of state `i` of member
+    `m` yields a pin (`derPin … = .pin v`, e.g. by `init_der_pin`), the entry of
+    `initial_der(state i)` of member `m` holds `v` in `lbx` and `ubx`. -/
+theorem init_der_pin_final (I : Inst) (r : Result) (h : transcribeBounds I = some r) (hne : NonEmpty I)
+    (m i : Nat) (hm : m < I.E) (hi : i < I.states.length) (b : Blk) (hh : Option Hist)
+    (hkk : (I.states.zip (histOf I m ++ List.replicate I.states.length none))[i]? = some (b, hh))
+    (v : Rat) (hv : derPin I.t0 b hh (r.derNoms.getD i 1) = .pin v) :
+    r.lbx[derIndex I m i]? = some (XVal.fin v) ∧ r.ubx[derIndex I m i]? = some (XVal.fin v) := by
+  obtain ⟨noms, lo, hi, hlo, hhi, hpm, hnoms⟩ := transcribe_unfold I r h
+  subst hnoms
+  have hE : 0 < I.E := by omega
+  have hll := boxArr_length true I lo hE hlo
+  have hlh := boxArr_length false I hi hE hhi
+  set jd := I.states.length + I.algs.length + I.paths.length + I.extras.length + i with hjd
+  obtain ⟨bd, hbd⟩ := slot_exists I jd (by rw [stateBlocks_length]; omega)
+  have hposd := hne.1 bd (List.mem_of_getElem? hbd)
+  obtain ⟨la, ha, lb, hb, lc, hc, sa, sc, e1, e2, e3, e4, e5⟩ :=
+    pinMembers_split I r.derNoms I.E 0 lo hi r.lbx r.ubx [] r.symbolic hpm m (Nat.zero_le _) (by omega)
+  have hp : derIndex I m i = slotStart I m jd := derIndex_eq I m i
+  have hlt : slotStart I m jd < totalSize I := slotStart_lt I m jd bd hm hbd hposd
+  have l1 := applyPins_length I m _ 0 la ha lb hb e3
+  have heff := applyDerPins_effect I m r.derNoms _ 0 lb hb lc hc sa sc e4 i b hh hkk v
+    (by simpa using hv)
+    (by simp only [Nat.zero_add]; rw [hp, l1.1, l1.2, e1, e2, hll, hlh]; exact ⟨hlt, hlt⟩)
+    (by
+      intro i' h1 h2
+      rw [zip_pad_length] at h2
+      simp only [Nat.zero_add]
+      intro heq
+      rw [derIndex_eq, derIndex_eq] at heq
+      obtain ⟨bd', hbd'⟩ := slot_exists I
+        (I.states.length + I.algs.length + I.paths.length + I.extras.length + i')
+        (by rw [stateBlocks_length]; omega)
+      have := (slotStart_injective I hne m _ m _ bd bd' hbd hbd' heq).2
+      omega)
+  simp only [Nat.zero_add] at heff
+  have hfr3 := pinMembers_frame I r.derNoms _ (m + 1) lc hc r.lbx r.ubx sc r.symbolic e5 (derIndex I m i) (by
+    intro m' h1 h2 ht
+    rw [hp] at ht
+    have := (touches_slotStart I hne m jd m' bd hbd ht).1
+    omega)
+  rw [hfr3.1, hfr3.2.1]
+  exact heff
+
+
+
+/-- `nominal · lbx[idx]` is the user's bound (the form in which the property is stated) -/
+theorem nominal_times_box (lower : Bool) (I : Inst) (arr : List XVal) (hE : 0 < I.E)
+    (h : boxArr lower I = some arr) (m j c i : Nat) (b : Blk) (hm : m < I.E)
+    (hb : (stateBlocks I)[j]? = some b) (hwf : WF b) (hc : c < b.size) (hi : i < b.n)
+    (hν : b.nom.at c ≠ 0) :
+    (arr[stateIndex I m j c i]?).map (fun x => xmulPos x (b.nom.at c))
+      = sideAt b (sideOf lower b) (fillOf lower) c i := by
+  rw [box_is_users_box lower I arr hE h m j c i b hm hb hwf hc hi]
+  unfold scaledBound
+  cases sideAt b (sideOf lower b) (fillOf lower) c i with
+  | none => rfl
+  | some x =>
+    cases x with
+    | nan => rfl
+    | e v => simp [xdivPos, xmulPos, EVal.mulPos_divPos v _ hν]
+
+/-! ## malformed bounds are rejected, not silently mis-assigned -/
+
+/-- a vector bound whose length is neither the variable's size nor 1, and a 1-D Timeseries bound
+    on a vector variable with several stamps, raise (NumPy cannot broadcast them) -/
+theorem malformed_side_rejected (b : Blk) (fill : XVal) :
+    (∀ xs : List EVal, xs.length ≠ b.size → xs.length ≠ 1 → blockWrite b (.vec xs) fill = none) ∧
+    (∀ (t : List Rat) (vs : List EVal), b.scalarT = false → 2 ≤ b.size → 2 ≤ b.n →
+        blockWrite b (.ts1 t vs) fill = none) := by
+  constructor
+  · intro xs h1 h2
+    unfold blockWrite sideVals
+    simp only [h1, if_false]
+    match xs, h2 with
+    | [], _ => rfl
+    | [x], h2 => simp at h2
+    | _ :: _ :: _, _ => rfl
+  · intro t vs hs h2 hn
+    have hsv : sideVals b (.ts1 t vs) fill = none ∨
+        ∃ arr, sideVals b (.ts1 t vs) fill = some (some arr) ∧ arr.length = b.n := by
+      simp only [sideVals]
+      split
+      · exact Or.inl rfl
+      · simp only [hs, Bool.false_eq_true, if_false]
+        cases harr : interpArrayX b.mode (toKnots t vs) fill fill b.times with
+        | none => exact Or.inl rfl
+        | some arr => exact Or.inr ⟨arr, rfl, interpArrayX_length _ _ _ _ _ _ harr⟩
+    unfold blockWrite
+    rcases hsv with h | ⟨arr, h, hal⟩
+    · rw [h]
+    · rw [h]
+      have hne : arr.length ≠ b.len := by
+        rw [hal, Blk.len_eq]
+        intro h'
+        have : b.n * 2 ≤ b.n * b.size := Nat.mul_le_mul_left _ h2
+        omega
+      simp only [hne, if_false]
+      match arr, hal with
+      | [], _ => rfl
+      | [x], hal => simp at hal; omega
+      | _ :: _ :: _, _ => rfl
+
+/-- a rejected slot makes the whole transcription raise (no partially filled bound vector) -/
+theorem malformed_bound_raises (lower : Bool) (I : Inst) (hE : 0 < I.E) (j : Nat) (b : Blk)
+    (hb : (stateBlocks I)[j]? = some b)
+    (hbad : blockWrite b (sideOf lower b) (fillOf lower) = none) : boxArr lower I = none := by
+  rw [boxArr_closed lower I hE]
+  have hnone : closedPass lower (stateBlocks I) = none := by
+    unfold closedPass
+    cases hm : (stateBlocks I).mapM (blockVals lower) with
+    | none => rfl
+    | some vs =>
+      have := mapM_some_getElem? _ _ _ hm j b hb
+      have hbv : blockVals lower b = none := by simp [blockVals, hbad]
+      rw [hbv] at this
+      have hl := mapM_some_length _ _ _ hm
+      have hj : j < vs.length := by rw [hl]; exact (List.getElem?_eq_some_iff.1 hb).1
+      rw [List.getElem?_eq_getElem hj] at this
+      cases this
+  rw [hnone]
+  cases closedPass lower I.controls <;> rfl
+
+/-! ## link to C19 -/
+
+/-- **A finite-valued Timeseries bound is interpolated by the C19 interpolant**: the extended
+    interpolation used for bounds and histories (values may be ±inf / NaN) coincides with
+    `RtcVerif.Interp.interpCore` (exact at knots, chord / previous / next value between knots,
+    fills outside — `Props/C19.lean`) whenever the values are finite, in every mode, error cases
+    included. -/
+theorem timeseries_bound_is_c19_interp (mode : Nat) (ks : Interp.Knots) (fl fr : XVal) (t : Rat) :
+    toOut (interpCoreX mode (liftKnots ks) fl fr t) = Interp.interpCore mode ks (some fl) (some fr) t :=
+  interpCoreX_fin mode ks fl fr t
 
 /-! ## non-vacuity: a concrete instance (two members, a shared control on a coarser grid, a vector
 path variable with a 2-D Timeseries bound and per-component nominals, a vector extra variable) -/
